@@ -380,6 +380,25 @@ def elementwise_reset(ctx, fn, field):
     if len(heads) != 1 or not loop_exits_only_on_exhaustion(fn, heads[0]):
         return False
     ws = [w for w in all_writes(ctx, fn) if self_field(w) == field and w["how"] == "store" and "[]" in w["path"]]
+    if not ws:
+        # an index loop over the container's own extent: `for i in 0..self.f.block_len() { self.f.set_block(i, 0) }`
+        # (set_block / set with the loop index and the constant 0, in every iteration, over 0..len)
+        from ..terms import fmt as _fmt
+        cs = [w for w in all_writes(ctx, fn) if self_field(w) == field and w["how"] == "call" and w.get("name") in ("set_block", "set") and len(w.get("args", [])) == 3 and not w.get("via")]
+        if len(cs) != 1:
+            return False
+        fld_t, ix, v = cs[0]["args"]
+        zero = v == const(0) or v == const(False)
+        extent = {"set_block": ("block_len",), "set": ("len",)}[cs[0]["name"]]
+        rng_ok = False
+        if ix[0] == "elem" and ix[1][0] == "adt" and ix[1][1] == "std::ops::Range":
+            d = dict(ix[1][3])
+            e_ = d.get("end", ("x",))
+            e_ = e_[2] if e_[0] == "cast" else e_
+            rng_ok = d.get("start") == const(0) and e_[0] == "call" and e_[1].rsplit("::", 1)[-1] in extent and e_[2] and e_[2][0] == fld_t
+        body = fn.natural_loop(heads[0])
+        every_iter = all(fn.dominates(cs[0]["bb"], b) for b, h in fn.back_edges())
+        return bool(zero and rng_ok and cs[0]["bb"] in body and every_iter)
     if len(ws) != 1:
         return False
     v = ws[0]["value"]
